@@ -57,6 +57,30 @@ def run(ck, F, E):
             ok = not f1 and not f2 and p1 == p2 and len(p1) == 1
         ck.require(ok, "C15:PIPE:analyzer-same-text", "same storing pipeline", "the tokenizer reads the line whose number was parsed",
                    "the analyzer tokenizes a different text from the one it parsed the number from", run_.span)
+    if run_ is not None and len(run_.calls_to("Program::set_numbered_line")) == 1:
+        # the analyzer stores a file line under exactly the conditions the prompt path stores a typed line: it has a number,
+        # it tokenizes, and (the property's premise) it is not empty.  Any further condition drops lines that typing keeps.
+        from lib import controlling_switches
+        st = run_.calls_to("Program::set_numbered_line")[0]
+        extra = []
+        n = 0
+        for (sb, subj, names) in controlling_switches(run_, st.bb):
+            n += 1
+            cs = [x[1].split("::")[-1] for x in expr_calls(subj)]
+            head = cs[0] if cs else ""
+            if names and set(names.values()) <= {"None", "Some"} and head == "next":
+                continue                                   # loop progress (per line / per token)
+            if names and set(names.values()) <= {"None", "Some"} and head == "parse_line_number":
+                continue
+            if names and set(names.values()) <= {"Ok", "Err", "Continue", "Break"} and "remaining_tokens_and_ranges" in cs[:2]:
+                continue
+            if not names and head == "is_empty" and strip_expr(subj)[0] == "call":
+                continue                                   # empty line / no tokens: outside the property's premise
+            extra.append(show(subj)[:110])
+        ck.require(n >= 3 and not extra, "C15:PIPE:analyzer-stores-every-line", "same storing pipeline",
+                   "the analyzer's store is conditioned only on: a line number, successful tokenization, non-emptiness (%d tests)" % n,
+                   "SourceFileAnalyzer::run skips storing some numbered, tokenizable, non-empty lines (extra condition: %s): the "
+                   "loaded program lacks lines that the same text typed at the prompt defines" % extra, st.span)
     ii = get_fn(ck, F, "SourceFileAnalyzer::into_interpreter")
     if ii is not None:
         rs = ii.calls_to("Program::reset_runtime_state")
@@ -80,6 +104,40 @@ def run(ck, F, E):
                    "reset_runtime_state (file path) leaves fresh everything that entering a line (prompt path) leaves fresh",
                    "after loading a file Program.%s still holds what static analysis left there, whereas typing the lines resets it: "
                    "e.g. functions defined during analysis are already defined when the loaded program starts" % missing, rr.span)
+    if run_ is not None and rr is not None:
+        # static analysis runs on the very Program that is handed to the interpreter: whatever it may write there must be
+        # reset by into_interpreter's reset_runtime_state, be the line store itself, or be a counter that is provably given
+        # back on every path (errors included)
+        import panics
+        AN = "abasic_core::analyzer::source_file_analyzer::SourceFileAnalyzer"
+        written = set()
+        for (k, p) in E.info[run_.path].writes:
+            if k == 0 and len(p) >= 2 and p[0] == (AN, "program") and p[1][0] == "abasic_core::program::Program":
+                written.add(p[1][1])
+        k_load = {p[0][1] for (k, p) in E.info[rr.path].kills if k == 0 and len(p) == 1}
+        balanced = set(panics.balanced_counter_fields(F))
+        # the cursor (location, immediate_line) is re-initialised by every host call before anything reads it:
+        # evaluate_impl begins with set_and_goto_immediate_line, which assigns both unconditionally
+        cursor = set()
+        evi = F.one("Interpreter::evaluate_impl")
+        sgi = F.one("Program::set_and_goto_immediate_line")
+        if evi is not None and sgi is not None:
+            cands = [c for c in evi.calls() if c.is_local and not c.callee.endswith("PartialEq>::eq")]
+            firsts = [c for c in cands if all(evi.dominates(c.bb, o.bb) for o in cands)]
+            if firsts and firsts[0].callee == sgi.path:
+                pd = sgi.postdominators().get(0, set()) | {0}
+                for (b2, i2, pl2, rv2, sp2) in sgi.assigns():
+                    fs2 = [p_ for p_ in pl2["proj"] if p_["k"] == "field"]
+                    if b2 in pd and fs2 and len(fs2) == 1 and fs2[0].get("name") in ("location", "immediate_line"):
+                        cursor.add(fs2[0]["name"])
+        left = sorted(written - k_load - balanced - {"numbered_lines"} - cursor)
+        ck.note("C15.analysis_writes_program_fields", sorted(written))
+        ck.require(bool(written) and not left, "C15:PIPE:analysis-leaves-nothing-behind", "same storing pipeline",
+                   "of the Program fields analysis may write (%s), all but the line store are reset by reset_runtime_state or are "
+                   "balanced counters" % ", ".join(sorted(written)),
+                   "static analysis can leave Program.%s modified in the program handed to the interpreter (not reset by "
+                   "reset_runtime_state, not a balanced counter): a loaded program starts in a different state from a typed one" % left,
+                   rr.span)
     fpb = get_fn(ck, F, "Interpreter::from_program")
     if fpb is not None:
         ok = False
